@@ -180,18 +180,13 @@ SEEDS["C04_snapshot_after_call"] = ("C04", [(P, """        pytree_memo_bak = pyt
         try:
             out = cls._check(obj, pytree_memo)
             pytree_memo_bak = pytree_memo.copy()""")], "C04.2")
-SEEDS["C04_set_bottom_of_stack"] = ("C04", [(S, """        _shape_storage.memo_stack[-1] = (
-            single_memo,""", """        _shape_storage.memo_stack[0] = (
-            single_memo,""")], "C04.4")
-SEEDS["C04_set_store_order"] = ("C04", [(S, """            single_memo,
-            variadic_memo,
-            pytree_memo,
-            arg_memo,
-        )""", """            single_memo,
-            pytree_memo,
-            variadic_memo,
-            arg_memo,
-        )""")], "C04.3")
+SEEDS["C04_set_bottom_of_stack"] = ("C04", [(S, """        for memo, new_memo in zip(_shape_storage.memo_stack[-1], new_memos):""", """        for memo, new_memo in zip(_shape_storage.memo_stack[0], new_memos):""")], "C04.4")
+SEEDS["C04_set_update_without_clear"] = ("C04", [(S, """                memo.clear()
+                memo.update(new_memo)""", """                memo.update(new_memo)""")], "C04.4")
+SEEDS["C04_set_unguarded"] = ("C04", [(S, """    if _has_shape_memo():
+        # Restore in-place""", """    if True:
+        # Restore in-place""")], "C04.4")
+SEEDS["C04_set_store_order"] = ("C04", [(S, "new_memos = (single_memo, variadic_memo, pytree_memo, arg_memo)", "new_memos = (single_memo, pytree_memo, variadic_memo, arg_memo)")], "C04.3")
 SEEDS["C04_restore_on_success"] = ("C04", [(A, """        if check == "":
             return check
         else:""", """        if check == "":
@@ -696,3 +691,85 @@ TWINS["C07_twin_result_renamed"] = ("C07", [(D, """                    return wr
                 finally:""", """                    result = wrapped_fn_impl(args, kwargs, bound, memos)
                     return result
                 finally:""")])
+
+# ------------------------------------------------------------------------- C13
+SEEDS["C13_cause_polarity_swapped"] = ("C13", [(D, """                        if config.jaxtyping_remove_typechecker_stack:
+                            raise TypeCheckError(msg) from None
+                        else:
+                            raise TypeCheckError(msg) from e
+
+                # Actually""", """                        if config.jaxtyping_remove_typechecker_stack:
+                            raise TypeCheckError(msg) from e
+                        else:
+                            raise TypeCheckError(msg) from None
+
+                # Actually""")], "C13.4")
+SEEDS["C13_annotationerror_swallowed_in_return"] = ("C13", [(D, """                        full_fn(*args, **kwargs)
+                    except AnnotationError:
+                        raise
+                    except Exception as e:""", """                        full_fn(*args, **kwargs)
+                    except Exception as e:""")], "C13.2")
+SEEDS["C13_annotationerror_handler_after_exception"] = ("C13", [(D, """                    param_fn(*args, **kwargs)
+                except AnnotationError:
+                    raise
+                except Exception:""", """                    param_fn(*args, **kwargs)
+                except (TypeError, AnnotationError):""")], "C13.2")
+SEEDS["C13_return_message_says_parameters"] = ("C13", [(D, """                            "Type-check error whilst checking the return value "
+                            f"of {module_name}.{qualname}.\\n\"""", """                            "Type-check error whilst checking the parameters of "
+                            f"{module_name}.{qualname}.\\n\"""")], "C13.3")
+SEEDS["C13_param_failure_raises_typeerror"] = ("C13", [(D, """                        if config.jaxtyping_remove_typechecker_stack:
+                            raise TypeCheckError(msg) from None
+                        else:
+                            raise TypeCheckError(msg) from e
+
+                # Actually""", """                        if config.jaxtyping_remove_typechecker_stack:
+                            raise TypeError(msg) from None
+                        else:
+                            raise TypeCheckError(msg) from e
+
+                # Actually""")], "C13.3")
+SEEDS["C13_blame_in_fresh_context"] = ("C13", [(D, """        fn = _apply_typechecker(
+            typechecker, fn
+        )  # but no `jaxtyped`; keep the same environment.""", """        fn = jaxtyped(fn, typechecker=typechecker)""")], "C13.5")
+SEEDS["C13_stale_memos_via_replace"] = ("C13", [(S, """        new_memos = (single_memo, variadic_memo, pytree_memo, arg_memo)
+        for memo, new_memo in zip(_shape_storage.memo_stack[-1], new_memos):
+            if memo is not new_memo:
+                memo.clear()
+                memo.update(new_memo)""", """        _shape_storage.memo_stack[-1] = (
+            single_memo,
+            variadic_memo,
+            pytree_memo,
+            arg_memo,
+        )""")], "C13.1")
+SEEDS["C13_push_returns_copy"] = ("C13", [(S, """    memo_stack.append(memos)
+    return memos""", """    memo_stack.append(memos)
+    return tuple(dict(m) for m in memos)""")], "C13.1")
+SEEDS["C13_annotationerror_is_typeerror"] = ("C13", [("jaxtyping/_errors.py", "class AnnotationError(Exception):", "class AnnotationError(TypeError):")], "C13.3")
+TWINS["C13_twin_fresh_get"] = ("C13", [(D, """                            f"Parameter annotations: {param_hints}.\\n"
+                            + shape_str(memos)
+                        )
+                        if config.jaxtyping_remove_typechecker_stack:
+                            raise TypeCheckError(msg) from None
+                        else:
+                            raise TypeCheckError(msg) from e
+
+                # Actually""", """                            f"Parameter annotations: {param_hints}.\\n"
+                            + shape_str(get_shape_memo())
+                        )
+                        if config.jaxtyping_remove_typechecker_stack:
+                            raise TypeCheckError(msg) from None
+                        else:
+                            raise TypeCheckError(msg) from e
+
+                # Actually"""), (D, "from ._storage import pop_shape_memo, push_shape_memo, shape_str", "from ._storage import get_shape_memo, pop_shape_memo, push_shape_memo, shape_str")])
+TWINS["C13_twin_negated_switch"] = ("C13", [(D, """                        if config.jaxtyping_remove_typechecker_stack:
+                            raise TypeCheckError(msg) from None
+                        else:
+                            raise TypeCheckError(msg) from e
+
+                # Actually""", """                        if not config.jaxtyping_remove_typechecker_stack:
+                            raise TypeCheckError(msg) from e
+                        else:
+                            raise TypeCheckError(msg) from None
+
+                # Actually""")])
